@@ -227,4 +227,47 @@ class C03c(Obligation):
         ctx.check((kind == 'method') == (inner.kind == 'class'), 'defined directly in a class body => a method')
 
 
-OBLIGATIONS = [C03a, C03b, C03c]
+import jedi  # noqa: E402
+from obligations.scopes import SCOPE_CORPUS, name_scopes, jedi_chain  # noqa: E402
+
+
+class C03d(Obligation):
+    id = 'C03.d'
+    title = 'every name is looked up through exactly the chain of scopes Python consults (functions, lambdas, comprehensions, class-body rule, header rule)'
+    pattern = 'P4 concrete tree x symbolic cursor; reference chains from CPython ast'
+    interpret_modules = ('jedi', 'parso', 'obligations')
+    loop_bound = 400
+    max_paths = 6000
+    findings = {'C03-class-comprehension': 'comprehension in a class body sees the class scope'}
+    assumptions = (
+        'a corpus file with nested functions/classes/lambdas/list-set-dict comprehensions/generator expressions, star and '
+        'annotated parameters, defaults, decorators and base classes is parsed natively; the cursor is symbolic and '
+        'resolved by the interpreted get_leaf_for_position; domain: positions on ast.Name / parameter tokens; the context '
+        'chain is built natively by ModuleContext.create_context; binding tokens are not uses and are skipped; for the first '
+        'iterable of a comprehension and the defaults of a lambda jedi may consult that inner scope first (its bindings lie '
+        'behind the use and are hidden by the position limit) - accepted',
+    )
+
+    def scenario(self, ctx, cfg):
+        src = SCOPE_CORPUS[0]
+        script = jedi.Script(src)
+        scopes = name_scopes(src)
+        line = ctx.int('line')
+        column = ctx.int('column')
+        on = [ctx.And(line == l, c < column, column <= c + 1) for (l, c) in scopes]
+        ctx.assume(ctx.Or(*on))
+        leaf = ctx.run(script._module_node.get_leaf_for_position, (line, column))
+        ctx.check(leaf is not None and leaf.type == 'name' and leaf.start_pos in scopes, 'the position resolves to that name token')
+        if leaf is None or leaf.start_pos not in scopes:
+            return
+        expected, binds, extra, in_class_comp = scopes[leaf.start_pos]
+        out = ctx.call(script._get_module_context().create_context, leaf)
+        ctx.check(out.exc is None, 'never raises')
+        if out.exc is None and not binds:
+            got = jedi_chain(out.value)
+            ctx.observe((leaf.value, leaf.start_pos, got), 'chain')
+            ok = got == expected or (extra is not None and got == (extra,) + expected)
+            ctx.check(ok, "the lookup chain equals Python's", known={'C03-class-comprehension': in_class_comp})
+
+
+OBLIGATIONS = [C03a, C03b, C03c, C03d]
